@@ -3,6 +3,7 @@
 from __future__ import annotations
 
 import ast
+import copy
 import io
 import json
 import tokenize
@@ -210,6 +211,18 @@ def innermost(nodes_locs, gs, ge, root_f):
     return best[1] if best else None
 
 
+def dump_modulo_debug_text(tree):
+    """ast.dump with the blanks of string constants that are literal parts of f-strings removed: inside a self-documenting field `{a = }` the
+    whitespace between tokens is also TEXT of the preceding constant; such an edit is still trivia for the expression nodes"""
+    tree = copy.deepcopy(tree)
+    for n in ast.walk(tree):
+        if isinstance(n, ast.JoinedStr):
+            for v in n.values:
+                if isinstance(v, ast.Constant) and isinstance(v.value, str):
+                    v.value = ''.join(v.value.split()).replace('\\', '').replace('#c', '').replace('#é', '')
+    return ast.dump(tree)
+
+
 def stage_oracle(ctx: Ctx, progs):
     """The property itself on the implementation: every token gap x trivia-preserving replacements, compared with a
     from-scratch parse of the new source; also model (offset_mode over translated params/rule) vs implementation."""
@@ -235,7 +248,7 @@ def stage_oracle(ctx: Ctx, progs):
         if len(gaps) > per_prog:
             gaps = rng.sample(gaps, per_prog)
         base_tokens = sig_tokens(src)
-        base_dump = ast.dump(ast.parse(src))
+        base_dump = dump_modulo_debug_text(ast.parse(src))
         for (gs, ge, depth, ptok, ntok) in gaps:
             cur = root.src
             if cur != src:  # keep every gap experiment independent of the previous ones
@@ -253,7 +266,7 @@ def stage_oracle(ctx: Ctx, progs):
                 after = '\n'.join([pl[ge[0]][ge[1]:]] + pl[ge[0] + 1:])
                 new_src = before + repl + after
                 try:
-                    if sig_tokens(new_src) != base_tokens or ast.dump(ast.parse(new_src)) != base_dump:
+                    if sig_tokens(new_src) != base_tokens or dump_modulo_debug_text(ast.parse(new_src)) != base_dump:
                         continue
                 except Exception:
                     continue
@@ -267,7 +280,9 @@ def stage_oracle(ctx: Ctx, progs):
                     loc = f.loc
                     if loc is not None:
                         locs.append((f, loc))
-                node = innermost(locs, gs, ge, root)
+                # the literal text of an f-string is not a node the blanks are trivia FOR (inside a self-documenting field they are its content)
+                cand = [(f_, l_) for f_, l_ in locs if not (isinstance(f_.a, ast.Constant) and f_.parent is not None and isinstance(f_.parent.a, ast.JoinedStr))]
+                node = innermost(cand, gs, ge, root)
                 if node is None:
                     continue
                 want_model = nmodel < max_model and len(nodes) < 400 and rng.random() < 0.5
@@ -439,7 +454,8 @@ def run(ctx: Ctx):
         run_guarded(ctx, stage_offset_corr, progs)
     # small programs whose every gap is tried: self-documenting f-string fields behind non-ASCII text, multi-line holders whose first line is longer than the last
     extra = ["x = f'é {a = }'\n", "y = f'ü{b=!r:>10} ñ {c = } {d  =  }'\n", "z = f'''ö\n {e = } é {f=}'''\n", 'w = foo(a,  b ,\n    c)\n', 'v = [aaaa,   bbbb,\n]\n',
-             "s = f'{ {1, 2} }' + f'é{ (x) = }'\n", 'def f():\n  if a:\n    x = 1  # c\ny = 2\n', '@d1\n@d2(a,  b)\ndef g(a,  b ,\n      c): pass\n']
+             "s = f'{ {1, 2} }' + f'é{ (x) = }'\n", "q = 1\nx = f'''{a + \\\n b = }'''\n", "y = f'{a is not b = }'\n", "z = f'{a not in b = } {c   is   not   d=}'\n",
+             "if x:\n    w = f'{(a,\n  b) = !r}'\n", "k = 0\nu = f'{a +\\\n  b = } {f(c,\n d) = :>{w}}'\n", 'def f():\n  if a:\n    x = 1  # c\ny = 2\n', '@d1\n@d2(a,  b)\ndef g(a,  b ,\n      c): pass\n']
     run_guarded(ctx, stage_oracle, extra + progs)
     run_guarded(ctx, stage_edges, progs)
 
